@@ -79,6 +79,12 @@ impl GraphBlock {
     }
 
     pub fn to_markdown(&self, options: &MarkdownOptions) -> String {
+        self.to_markdown_marked(options, false)
+    }
+
+    // `alternate` picks the second list marker (`*`, `1)`): a list that directly follows a list of
+    // the same kind would otherwise be read back as more items of that list
+    fn to_markdown_marked(&self, options: &MarkdownOptions, alternate: bool) -> String {
         match self {
             GraphBlock::Plain(inlines) => format!("{}\n", inlines_to_markdown(inlines, options)),
             GraphBlock::Para(inlines) => format!("{}\n", inlines_to_markdown(inlines, options)),
@@ -128,6 +134,7 @@ impl GraphBlock {
                     left_pad_and_prefix_num(
                         &blocks_to_markdown_and(item, self.is_sparce_list(), options),
                         n + 1,
+                        if alternate { ')' } else { '.' },
                     )
                 })
                 .collect::<Vec<String>>()
@@ -135,11 +142,10 @@ impl GraphBlock {
             GraphBlock::BulletList(items) => items
                 .iter()
                 .map(|item| {
-                    left_pad_and_prefix(&blocks_to_markdown_and(
-                        item,
-                        self.is_sparce_list(),
-                        options,
-                    ))
+                    left_pad_and_prefix(
+                        &blocks_to_markdown_and(item, self.is_sparce_list(), options),
+                        if alternate { '*' } else { '-' },
+                    )
                 })
                 .collect::<Vec<String>>()
                 .join(if self.is_sparce_list() { "\n" } else { "" }),
@@ -464,16 +470,16 @@ impl GraphInline {
     }
 }
 
-fn left_pad_and_prefix(text: &str) -> String {
+fn left_pad_and_prefix(text: &str, marker: char) -> String {
     let mut result = String::new();
     for (n, line) in text.lines().enumerate() {
         if line.is_empty() {
             result.push_str("\n");
-        } else if n == 0 && line.len() >= 3 && line.chars().all(|c| c == '-') {
+        } else if n == 0 && marker == '-' && line.len() >= 3 && line.chars().all(|c| c == '-') {
             // "- ---" as a whole is a thematic break, not an item that holds one
             result.push_str(&format!("- {}\n", "*".repeat(line.len())));
         } else if n == 0 {
-            result.push_str(&format!("- {}\n", line));
+            result.push_str(&format!("{} {}\n", marker, line));
         } else {
             result.push_str(&format!("  {}\n", line));
         }
@@ -482,8 +488,8 @@ fn left_pad_and_prefix(text: &str) -> String {
     result
 }
 
-fn left_pad_and_prefix_num(text: &str, num: usize) -> String {
-    let prefix = format!("{}.{}", num, if num > 9 { "" } else { " " });
+fn left_pad_and_prefix_num(text: &str, num: usize, delimiter: char) -> String {
+    let prefix = format!("{}{}{}", num, delimiter, if num > 9 { "" } else { " " });
     let mut result = String::new();
     for (n, line) in text.lines().enumerate() {
         if line.is_empty() {
@@ -667,13 +673,29 @@ fn longest_backtick_run(text: &str) -> usize {
 
 pub fn blocks_to_markdown_and(blocks: &Blocks, sparce: bool, options: &MarkdownOptions) -> String {
     let mut markdown = String::new();
+    let alternate = alternate_markers(blocks);
     for (n, block) in blocks.iter().enumerate() {
         if n > 0 && (sparce || needs_blank_line(&blocks[n - 1], block)) {
             markdown.push('\n');
         }
-        markdown.push_str(&block.to_markdown(options));
+        markdown.push_str(&block.to_markdown_marked(options, alternate[n]));
     }
     markdown
+}
+
+// which lists of a block sequence take the second marker: every list that directly follows a list
+// of the same kind written with the first one
+fn alternate_markers(blocks: &Blocks) -> Vec<bool> {
+    let mut alternate = vec![false; blocks.len()];
+    for n in 1..blocks.len() {
+        let same_kind = matches!(
+            (&blocks[n - 1], &blocks[n]),
+            (GraphBlock::BulletList(_), GraphBlock::BulletList(_))
+                | (GraphBlock::OrderedList(_), GraphBlock::OrderedList(_))
+        );
+        alternate[n] = same_kind && !alternate[n - 1];
+    }
+    alternate
 }
 
 // blocks that would be read as part of the block before them when they follow it directly: a rule
@@ -690,17 +712,21 @@ fn needs_blank_line(previous: &GraphBlock, block: &GraphBlock) -> bool {
 }
 
 pub fn blocks_to_markdown(blocks: &Blocks, options: &MarkdownOptions) -> String {
+    let alternate = alternate_markers(blocks);
     blocks
         .iter()
-        .map(|block| block.to_markdown(options))
+        .enumerate()
+        .map(|(n, block)| block.to_markdown_marked(options, alternate[n]))
         .collect::<Vec<String>>()
         .join("")
 }
 
 pub fn blocks_to_markdown_sparce(blocks: &Blocks, options: &MarkdownOptions) -> String {
+    let alternate = alternate_markers(blocks);
     blocks
         .iter()
-        .map(|block| block.to_markdown(options))
+        .enumerate()
+        .map(|(n, block)| block.to_markdown_marked(options, alternate[n]))
         .collect::<Vec<String>>()
         .join("\n")
 }
